@@ -23,6 +23,7 @@ def parseKV (cfg : Cfg × Bool) (tok : String) : Option (Cfg × Bool) :=
   | ["think", v] => v.toNat?.map fun x => ({ cfg.1 with think := x }, cfg.2)
   | ["buf", v] => v.toNat?.map fun x => ({ cfg.1 with bufsize := x }, cfg.2)
   | ["https", v] => some ({ cfg.1 with https := parseBool v }, cfg.2)
+  | ["thr", v] => v.toNat?.map fun x => ({ cfg.1 with thr := x }, cfg.2)
   | ["early", v] => some ({ cfg.1 with early := parseBool v }, cfg.2)
   | ["x100", v] => some ({ cfg.1 with expect100 := parseBool v }, cfg.2)
   | ["c0", v] => v.toNat?.map fun x => ({ cfg.1 with c0 := x }, cfg.2)
@@ -121,8 +122,8 @@ def handle : List String → String
   | ["ceil", kind, now, d] =>
     match now.toNat?, d.toNat? with
     | some now, some d =>
-      if kind == "total" then toString (totalDeadline now d)
-      else if kind == "ctx" then toString (ctxDeadline now d) else "bad-op"
+      if kind == "total" then toString (totalDeadline thr now d)
+      else if kind == "ctx" then toString (ctxDeadline thr now d) else "bad-op"
     | _, _ => "bad-op"
   | _ => "bad-op"
 
